@@ -323,5 +323,39 @@ func seqs41() []*mc.Seq {
 			lRemove("a"),
 			lAdvance(pastLease, "lease+1"),
 		}))
+
+	// Share reservations that outlive an OPEN_DOWNGRADE (see the NFSv4.0
+	// twin v40-locked-downgrade-upgrade): open read+write by O1, lock held
+	// by L1 through that open; second scenario: then downgraded to read.
+	lockedPrefix41 := chain(prefix41Open("d1", "O1", "a", accBoth), func(w *world, f failer) {
+		w.client41("d1").lock(f, open41of(w, "d1", "O1", "a"), "L1", rangeB0, false, false)
+	})
+	downgradeLetters41 := []letter{
+		l41downgrade("d1", "O1", "a", accRead), l41downgrade("d1", "O1", "a", accWrite),
+		l41open("d1", "O1", "a", accRead, howNoCreate, claimNull), l41open("d1", "O1", "a", accWrite, howNoCreate, claimNull), l41open("d1", "O1", "a", accBoth, howNoCreate, claimFH),
+		l41locku("d1", "O1", "a", "L1", rangeB0), l41lock("d1", "O1", "a", "L2", rangeB1, true, false),
+		l41close("d1", "O1", "a"),
+		l41free("d1", "O1", "a", "L1"),
+		l41io(ioWrite, "d1", "O1", "a", sidLock, "L1"),
+		lAdvance(pastLease, "lease+1"),
+	}
+	out = append(out, makeSeq("v41-locked-downgrade-upgrade", []string{"C18", "C19"}, map[string]int{"quick": 4, "thorough": 6}, lockedPrefix41, downgradeLetters41))
+	out = append(out, makeSeq("v41-locked-downgraded-upgrade", []string{"C18"}, map[string]int{"quick": 4, "thorough": 6},
+		chain(lockedPrefix41, func(w *world, f failer) { w.client41("d1").downgrade(f, open41of(w, "d1", "O1", "a"), accRead) }), downgradeLetters41))
+
+	// sa_cachethis=false: every SEQUENCE of the session asks the server
+	// not to cache the reply. A retransmission after completion gets the
+	// original bytes or NFS4ERR_RETRY_UNCACHED_REP, is never executed
+	// again, and false retries / misordered numbers are still refused.
+	out = append(out, makeSeq("v41-uncached", []string{"C19"}, map[string]int{"quick": 3, "thorough": 5},
+		chain(func(w *world, f failer) { w.uncached41 = true }, prefix41Session("d1")), []letter{
+			l41open("d1", "O1", "a", accRead, howNoCreate, claimNull), l41open("d1", "O1", "a", accBoth, howNoCreate, claimNull), l41open("d1", "O1", "b", accWrite, howUnchecked, claimNull),
+			l41downgrade("d1", "O1", "a", accRead),
+			l41close("d1", "O1", "a"),
+			l41lock("d1", "O1", "a", "L1", rangeB0, false, false), l41locku("d1", "O1", "a", "L1", rangeB0), l41free("d1", "O1", "a", "L1"),
+			l41io(ioWrite, "d1", "O1", "a", sidOpen, ""),
+			l41openIOClose("d1", "O2", "a", accBoth),
+			l41test("d1"),
+		}))
 	return out
 }
